@@ -371,10 +371,59 @@ func ruleFailedStoreCount(c *Ctx) {
 	}
 }
 
+// ruleStatusReachesCache: the recovery scan reads the replication status of
+// the *cached* regions. A heartbeat whose status differs from the cached one —
+// in state or in state id — must therefore replace the cached region, whatever
+// the new state is (a region falling back from integrity to simple majority
+// under the same state id included); the only status that is not a report is
+// UNKNOWN. So the comparison with the cached status is reached under no other
+// test of the reported state than "!= UNKNOWN".
+func ruleStatusReachesCache(c *Ctx) {
+	P := c.P
+	rule := c.Prop + "/recovery"
+	rs := "github.com/pingcap/kvproto/pkg/replication_modepb"
+	hb := P.Method("server/cluster", "RaftCluster", "processRegionHeartbeat")
+	getState := F(P.Method(rs, "RegionReplicationStatus", "GetState"))
+	getStateID := F(P.Method(rs, "RegionReplicationStatus", "GetStateId"))
+	c.saw(fnName(hb))
+	isCmp := func(g Callee) func(ssa.Instruction) bool {
+		return func(x ssa.Instruction) bool {
+			b, ok := x.(*ssa.BinOp)
+			return ok && (b.Op == token.NEQ || b.Op == token.EQL) && resultOfCall(g)(b.X) && resultOfCall(g)(b.Y)
+		}
+	}
+	restricted := &guardEv{name: "the reported state was tested against a constant other than '!= UNKNOWN'", match: func(cond ssa.Value, pos bool) bool {
+		r, ok := relOf(cond, pos)
+		if !ok {
+			return false
+		}
+		var k int64
+		var isC bool
+		switch {
+		case resultOfCall(getState)(r.X):
+			k, isC = constInt(r.Y)
+		case resultOfCall(getState)(r.Y):
+			k, isC = constInt(r.X)
+		}
+		if !isC {
+			return false
+		}
+		return !(r.Op == token.NEQ && k == 0)
+	}}
+	n := 0
+	for _, g := range []Callee{getState, getStateID} {
+		n += c.mustPrecede(rule, hb, "comparison of the reported "+g.CName()+" with the cached one", isCmp(g), []Ev{restricted}, func(h []bool) bool { return !h[0] },
+			"a changed replication status refreshes the cached region whatever the new state is (only UNKNOWN is not a report)")
+	}
+	if n < 2 {
+		c.Undec(rule, "status comparisons in "+fnName(hb), "state and state id each compared with the cached region's", "", fmt.Sprint(n))
+	}
+}
+
 func init() {
 	register("C19", "DR auto-sync only declares 'sync' when every region is in sync", func(c *Ctx) {
 		c.Group("C19/persist-before-serve", "a new status is offered to members and saved (same value) before it is served; its state id comes from a successful AllocID; the served status is otherwise only loaded or given progress numbers; accessed under the manager lock", func() { rulePersistBeforeServe(c) })
 		c.Group("C19/transition-guards", "tickDR: →async, async→sync_recover and sync_recover→sync are called only under their stated conditions; UpdateConfig rolls its config back when the switch fails", func() { ruleTransitionGuards(c); ruleFailedStoreCount(c) })
-		c.Group("C19/recovery", "entering sync_recover resets the cursor; the cursor advances only past contiguous regions reporting integrity under the current state id; progress 1.0 only after the whole key space", func() { ruleRecoveryAtoms(c) })
+		c.Group("C19/recovery", "entering sync_recover resets the cursor; the cursor advances only past contiguous regions reporting integrity under the current state id; progress 1.0 only after the whole key space", func() { ruleRecoveryAtoms(c); ruleStatusReachesCache(c) })
 	})
 }
